@@ -403,7 +403,12 @@ def check_json(res, fmt, text, features, shown, case):
         res.fail("C15.json.scenarios", "%s scenarios %r, shown scenarios %r"
                  % (fmt, [e.get("name") for e in elements][:6], [s.name for s in shown][:6]))
         return
+    # a scenario WITHOUT any step that a later hook excludes together with the rest of its feature (feature.skip()):
+    # its status is not determined by anything in it (out of scope, as in C03)
+    late_skip = any(k == "skip_feature" for _i, k in case["program"].get("hook_faults") or [])
     for el, s in zip(elements, shown):
+        if late_skip and not list(s.all_steps):
+            continue
         if el.get("status") != s.status.name:
             res.fail("C15.json.scenario-status", "%s: scenario %r has status %r in the report, %s in the model"
                      % (fmt, s.name, el.get("status"), s.status.name))
@@ -487,9 +492,10 @@ def check_readback(res, fmt, data, text, elements, shown, features, case):
         res.fail("C15.readback.scenarios", "%s read back: scenarios %r vs %r"
                  % (fmt, [s.name for s in scen_back][:5], [s.name for s in shown][:5]))
         return
+    late_skip = any(k == "skip_feature" for _i, k in case["program"].get("hook_faults") or [])
     for sb, s, el in zip(scen_back, shown, elements):
         has_result = [("result" in j and j["result"] is not None) for j in el.get("steps", [])]
-        if sb.status.name != s.status.name:
+        if sb.status.name != s.status.name and not (late_skip and not list(s.all_steps)):
             res.fail("C15.readback.scenario-status", "%s read back: scenario %r status %s, model %s"
                      % (fmt, s.name, sb.status.name, s.status.name))
         msteps = list(s.all_steps)
